@@ -66,6 +66,12 @@ CONSTANTS
   MaxMsgs, K, MaxTicks,
   FixDup, FixDel, FixInit,
   FixLate,                       \* subscribe() refuses to register once `closed` is set
+  CloseCheckOutside,             \* (seeded design C11b-1) close() tests `closed` BEFORE taking mu, sets it inside
+  StopDeletes,                   \* (seeded design C11b-2) the stop handler also deletes active[id]
+  Stalls,                        \* the environment may stall the socket once (a slow peer): a writer then sits in
+                                 \* Send / in the close-frame write HOLDING mu until the stall ends
+  Linger,                        \* a Source that saw ctx.Done returns only when the environment says so
+                                 \* (still "promptly": weakly fair) instead of in the same step
   PreAcked,                      \* TRUE: start right after an accepted handshake (reader in the run loop)
   Bursts,                        \* Sync only: the client may put a second message right behind init / start
                                  \* (two frames in one TCP write: the reader finds it without any delay)
@@ -75,7 +81,9 @@ VARIABLES
   inbox,        \* messages on their way to the server (FIFO)
   nsent,        \* number of client messages so far
   cgone,        \* the client has closed its end
-  prog, sub,    \* [Procs -> program], [Procs -> "-" | "in" | "cs" | "cc" | "cf"]
+  prog, sub,    \* [Procs -> program], [Procs -> position inside write ("in") / inside close:
+                \*   "ck" checked `closed` outside mu (seeded design only), "cs" holds mu, "cs2" close frame written,
+                \*   "cs3" active operations cancelled, "cc" closed set + unlocked, "cf" conn.Close() done]
   mu,           \* "free" or the process holding wsConnection.mu
   active,       \* id -> instance whose cancel func is registered
   closed,       \* wsConnection.closed
@@ -84,6 +92,7 @@ VARIABLES
   srvCancelled, runCancelled, reqCancelled,
   fnres, reason,\* scenario choices: what InitFunc answers; whether its context carries a close reason
   ticks, recvPong, deadline,
+  stalled,      \* "no" | "on" | "done": the peer is slow - writes to the socket do not return (Stalls)
   viol,         \* names of violated Ws guards
   act,          \* last action (observation only)
   hist          \* Sync only: the environment's decisions so far, each with the quiescent observation it was taken in
@@ -92,7 +101,7 @@ Tickers == {"KA", "PO", "PP"}
 Procs == {"R", "C"} \cup Tickers \cup AllInsts
 
 ivars == <<inbox, nsent, cgone, prog, sub, mu, active, closed, connClosed, ccancel,
-           srvCancelled, runCancelled, reqCancelled, fnres, reason, ticks, recvPong, deadline>>
+           srvCancelled, runCancelled, reqCancelled, fnres, reason, stalled, ticks, recvPong, deadline>>
 vars == <<w, c, ivars, viol, act, hist>>
 view == <<w, c, ivars, viol>>
 
@@ -135,7 +144,7 @@ Init ==
   /\ mu = "free" /\ active = <<>> /\ closed = FALSE /\ connClosed = FALSE /\ ccancel = {}
   /\ srvCancelled = FALSE /\ runCancelled = FALSE /\ reqCancelled = FALSE
   /\ reason \in (IF MCInitFn /\ MCCancel THEN BOOLEAN ELSE {FALSE})
-  /\ ticks = 0 /\ recvPong = FALSE
+  /\ ticks = 0 /\ recvPong = FALSE /\ stalled = "no"
   /\ viol = {} /\ act = [name |-> "Init", id |-> "", i |-> "", k |-> 0] /\ hist = <<>>
   /\ IF PreAcked
        THEN /\ w = [W0 EXCEPT !.first = "init", !.initFn = (IF MCInitFn THEN "accept" ELSE "none"), !.acks = 1]
@@ -152,12 +161,16 @@ Init ==
 CanStep(p) ==
   IF prog[p] = <<>> THEN FALSE
   ELSE LET t == Head1(p).t IN
-       CASE t = "w"     -> sub[p] = "in" \/ mu = "free"
-         [] t = "close" -> sub[p] # "-" \/ mu = "free"
+       CASE t = "w"     -> (sub[p] = "in" /\ stalled # "on") \/ (sub[p] = "-" /\ mu = "free")
+         [] t = "close" -> CASE sub[p] = "-"  -> CloseCheckOutside \/ mu = "free"
+                             [] sub[p] = "ck" -> mu = "free"
+                             [] sub[p] = "cs" -> stalled # "on"          \* the close frame is a socket write
+                             [] OTHER -> TRUE
          [] t = "rdinit" -> inbox # <<>>
          [] t = "read"  -> connClosed \/ inbox # <<>>
          [] t \in {"reg", "look", "pongcs", "pingcs", "del"} -> mu = "free"
          [] t = "call"  -> Cancelled(p)
+         [] t = "linger" -> ~Linger
          [] t \in {"wait", "tick"} -> CtxDone
          [] OTHER -> TRUE          \* initfn setup cancel ret start
 Quiet == \A p \in Procs : ~CanStep(p)
@@ -185,13 +198,13 @@ Lock(p) ==
   /\ mu' = p /\ sub' = [sub EXCEPT ![p] = "in"]
   /\ A("Lock", "", p, 0)
   /\ UNCHANGED <<w, c, viol, inbox, nsent, cgone, prog, active, closed, connClosed, ccancel, srvCancelled, runCancelled,
-                 reqCancelled, fnres, reason, ticks, recvPong, deadline>>
+                 reqCancelled, fnres, reason, stalled, ticks, recvPong, deadline>>
 
 \* Send inside the critical section.  On a closed socket it fails (ErrorFunc,
 \* not constrained); a no-op type of the subprotocol writes nothing; a frame
 \* written after our close frame, or after the client left, is never seen.
 Send(p) ==
-  /\ At(p, "w") /\ sub[p] = "in"
+  /\ At(p, "w") /\ sub[p] = "in" /\ stalled # "on"
   /\ LET o == Head1(p)
          seen == ~connClosed /\ ~closed /\ ~cgone /\ ~NoOp(o.f)
      IN /\ w' = (IF seen THEN Frame_F(w, o.f, o.id, o.i, o.k) ELSE w)
@@ -199,32 +212,64 @@ Send(p) ==
         /\ A(IF seen THEN "Frame" ELSE "SendLost", o.f, o.i, o.k)
   /\ mu' = "free" /\ sub' = [sub EXCEPT ![p] = "-"] /\ Pop(p)
   /\ UNCHANGED <<c, inbox, nsent, cgone, active, closed, connClosed, ccancel, srvCancelled, runCancelled,
-                 reqCancelled, fnres, reason, ticks, recvPong, deadline>>
+                 reqCancelled, fnres, reason, stalled, ticks, recvPong, deadline>>
 
+\* close(): `c.mu.Lock(); if c.closed { c.mu.Unlock(); return }` - test and lock are one step.
+\* In the seeded design (CloseCheckOutside) `closed` is an atomic flag tested BEFORE the lock.
 CloseTry(p) ==
-  /\ At(p, "close") /\ sub[p] = "-" /\ mu = "free"
-  /\ IF closed THEN Pop(p) /\ UNCHANGED <<mu, sub>>
-               ELSE mu' = p /\ sub' = [sub EXCEPT ![p] = "cs"] /\ UNCHANGED prog
+  /\ At(p, "close") /\ sub[p] = "-"
+  /\ IF CloseCheckOutside
+       THEN IF closed THEN Pop(p) /\ UNCHANGED <<mu, sub>>
+                      ELSE sub' = [sub EXCEPT ![p] = "ck"] /\ UNCHANGED <<mu, prog>>
+       ELSE /\ mu = "free"
+            /\ IF closed THEN Pop(p) /\ UNCHANGED <<mu, sub>>
+                         ELSE mu' = p /\ sub' = [sub EXCEPT ![p] = "cs"] /\ UNCHANGED prog
   /\ A("CloseTry", "", p, 0)
   /\ UNCHANGED <<w, c, viol, inbox, nsent, cgone, active, closed, connClosed, ccancel, srvCancelled, runCancelled,
-                 reqCancelled, fnres, reason, ticks, recvPong, deadline>>
+                 reqCancelled, fnres, reason, stalled, ticks, recvPong, deadline>>
 
-\* under mu: close frame, every registered cancel func, closed = true
+\* (seeded design) the lock, after the unlocked test
+CloseLock(p) ==
+  /\ At(p, "close") /\ sub[p] = "ck" /\ mu = "free"
+  /\ mu' = p /\ sub' = [sub EXCEPT ![p] = "cs"]
+  /\ A("CloseLock", "", p, 0)
+  /\ UNCHANGED <<w, c, viol, inbox, nsent, cgone, prog, active, closed, connClosed, ccancel, srvCancelled, runCancelled,
+                 reqCancelled, fnres, reason, stalled, ticks, recvPong, deadline>>
+
+\* under mu: the close frame (a socket write: it waits while the peer is stalled) - at most once
+CloseFrame(p) ==
+  /\ At(p, "close") /\ sub[p] = "cs" /\ stalled # "on"
+  /\ Chk(~closed, "CloseFrame:second")
+  /\ w' = (IF cgone \/ closed THEN w ELSE CEnd_F(w))   \* the client reads our close frame: the end, as far as it can see
+  /\ sub' = [sub EXCEPT ![p] = "cs2"]
+  /\ A("CloseFrame", "", p, Head1(p).k)
+  /\ UNCHANGED <<c, inbox, nsent, cgone, prog, mu, active, closed, connClosed, ccancel, srvCancelled, runCancelled,
+                 reqCancelled, fnres, reason, stalled, ticks, recvPong, deadline>>
+
+\* under mu: every registered cancel func (calling one twice is harmless)
+CloseCancel(p) ==
+  /\ At(p, "close") /\ sub[p] = "cs2"
+  /\ ccancel' = ccancel \cup Range(active)
+  /\ sub' = [sub EXCEPT ![p] = "cs3"]
+  /\ A("CloseCancel", "", p, 0)
+  /\ UNCHANGED <<w, c, viol, inbox, nsent, cgone, prog, mu, active, closed, connClosed, srvCancelled, runCancelled,
+                 reqCancelled, fnres, reason, stalled, ticks, recvPong, deadline>>
+
+\* under mu: closed = true; unlock
 CloseCS(p) ==
-  /\ At(p, "close") /\ sub[p] = "cs"
-  /\ closed' = TRUE /\ ccancel' = ccancel \cup Range(active)
-  /\ w' = (IF cgone THEN w ELSE CEnd_F(w))          \* the client reads our close frame: the end, as far as it can see
+  /\ At(p, "close") /\ sub[p] = "cs3"
+  /\ closed' = TRUE
   /\ mu' = "free" /\ sub' = [sub EXCEPT ![p] = "cc"]
   /\ A("CloseCS", "", p, Head1(p).k)
-  /\ UNCHANGED <<c, viol, inbox, nsent, cgone, prog, active, connClosed, srvCancelled, runCancelled,
-                 reqCancelled, fnres, reason, ticks, recvPong, deadline>>
+  /\ UNCHANGED <<w, c, viol, inbox, nsent, cgone, prog, active, connClosed, ccancel, srvCancelled, runCancelled,
+                 reqCancelled, fnres, reason, stalled, ticks, recvPong, deadline>>
 
 CloseConn(p) ==
   /\ At(p, "close") /\ sub[p] = "cc"
   /\ connClosed' = TRUE /\ sub' = [sub EXCEPT ![p] = "cf"]
   /\ A("CloseConn", "", p, 0)
   /\ UNCHANGED <<w, c, viol, inbox, nsent, cgone, prog, mu, active, closed, ccancel, srvCancelled, runCancelled,
-                 reqCancelled, fnres, reason, ticks, recvPong, deadline>>
+                 reqCancelled, fnres, reason, stalled, ticks, recvPong, deadline>>
 
 CloseFn(p) ==
   /\ At(p, "close") /\ sub[p] = "cf"
@@ -232,7 +277,7 @@ CloseFn(p) ==
   /\ sub' = [sub EXCEPT ![p] = "-"] /\ Pop(p)
   /\ A("CloseFn", "", p, Head1(p).k)
   /\ UNCHANGED <<c, inbox, nsent, cgone, mu, active, closed, connClosed, ccancel, srvCancelled, runCancelled,
-                 reqCancelled, fnres, reason, ticks, recvPong, deadline>>
+                 reqCancelled, fnres, reason, stalled, ticks, recvPong, deadline>>
 
 \* ---------------------------------------------------------------- reader --
 AfterAccept == <<Wr("ack"), Wr("ka"), O("setup"), O("read")>>
@@ -253,7 +298,7 @@ RdInit ==
   /\ Goto("R", InitProg(Head(inbox))) /\ inbox' = Tail(inbox)
   /\ A("RdInit", Head(inbox).m, "", 0)
   /\ UNCHANGED <<w, c, viol, nsent, cgone, sub, mu, active, closed, connClosed, ccancel, srvCancelled, runCancelled,
-                 reqCancelled, fnres, reason, ticks, recvPong, deadline>>
+                 reqCancelled, fnres, reason, stalled, ticks, recvPong, deadline>>
 
 \* nextMessageWithTimeout: the timer may win at any moment before the message is taken
 InitTimeout ==
@@ -261,7 +306,7 @@ InitTimeout ==
   /\ Goto("R", <<Cl(1002), O("ret")>>)
   /\ A("InitTimeout", "", "", 0)
   /\ UNCHANGED <<w, c, viol, inbox, nsent, cgone, sub, mu, active, closed, connClosed, ccancel, srvCancelled, runCancelled,
-                 reqCancelled, fnres, reason, ticks, recvPong, deadline>>
+                 reqCancelled, fnres, reason, stalled, ticks, recvPong, deadline>>
 
 InitFnCall ==
   /\ At("R", "initfn")
@@ -269,7 +314,7 @@ InitFnCall ==
   /\ Goto("R", IF fnres = "accept" THEN AfterAccept ELSE <<Wr("cerr"), Cl(1000), O("ret")>>)
   /\ A("InitFn", fnres, "", 0)
   /\ UNCHANGED <<c, inbox, nsent, cgone, sub, mu, active, closed, connClosed, ccancel, srvCancelled, runCancelled,
-                 reqCancelled, fnres, reason, ticks, recvPong, deadline>>
+                 reqCancelled, fnres, reason, stalled, ticks, recvPong, deadline>>
 
 Setup ==
   /\ At("R", "setup")
@@ -283,7 +328,7 @@ Setup ==
   /\ deadline' = (c.proto = "tws" /\ MCPP /\ ~MCMissingPongOk)
   /\ A("Setup", "", "", 0)
   /\ UNCHANGED <<w, c, viol, inbox, nsent, cgone, sub, mu, active, closed, connClosed, ccancel, srvCancelled, runCancelled,
-                 reqCancelled, fnres, reason, ticks, recvPong>>
+                 reqCancelled, fnres, reason, stalled, ticks, recvPong>>
 
 \* run(): dispatch on a message
 RunProg(m) ==
@@ -311,7 +356,7 @@ Read ==
         /\ Goto("R", RunProg(Head(inbox))) /\ inbox' = Tail(inbox)
         /\ A("Read", Head(inbox).m, Head(inbox).i, 0)
   /\ UNCHANGED <<w, c, viol, nsent, cgone, sub, mu, active, closed, connClosed, ccancel, srvCancelled, runCancelled,
-                 reqCancelled, fnres, reason, ticks, recvPong, deadline>>
+                 reqCancelled, fnres, reason, stalled, ticks, recvPong, deadline>>
 
 \* the read deadline armed by run()/ping() expires (no pong in time)
 Deadline ==
@@ -319,7 +364,7 @@ Deadline ==
   /\ Goto("R", <<O("ret")>>)
   /\ A("Deadline", "", "", 0)
   /\ UNCHANGED <<w, c, viol, inbox, nsent, cgone, sub, mu, active, closed, connClosed, ccancel, srvCancelled, runCancelled,
-                 reqCancelled, fnres, reason, ticks, recvPong, deadline>>
+                 reqCancelled, fnres, reason, stalled, ticks, recvPong, deadline>>
 
 \* subscribe(): c.mu.Lock(); c.active[id] = cancel; c.mu.Unlock(); go func(){...}
 Reg ==
@@ -335,16 +380,18 @@ Reg ==
               /\ w' = (IF o.id \in DOMAIN active /\ w.I[active[o.id]].cp = 0 /\ w.I[active[o.id]].er = 0 THEN [w EXCEPT !.devs = w.devs \cup {"dupreg"}] ELSE w)
               /\ A("Reg", o.id, o.i, 0)
   /\ UNCHANGED <<c, viol, inbox, nsent, cgone, sub, mu, closed, connClosed, ccancel, srvCancelled, runCancelled,
-                 reqCancelled, fnres, reason, ticks, recvPong, deadline>>
+                 reqCancelled, fnres, reason, stalled, ticks, recvPong, deadline>>
 
 \* stop: c.mu.Lock(); closer := c.active[id]; c.mu.Unlock()  ...
 Look ==
   /\ At("R", "look") /\ mu = "free"
   /\ LET o == Head1("R") IN
        /\ IF o.id \in DOMAIN active THEN Replace("R", <<Op("cancel", "", o.id, active[o.id], 0)>>) ELSE Pop("R")
+       \* (seeded design: "the client has given the id up" - the entry is deleted here as well)
+       /\ active' = (IF StopDeletes /\ o.id \in DOMAIN active THEN [x \in DOMAIN active \ {o.id} |-> active[x]] ELSE active)
        /\ A("Look", o.id, "", 0)
-  /\ UNCHANGED <<w, c, viol, inbox, nsent, cgone, sub, mu, active, closed, connClosed, ccancel, srvCancelled, runCancelled,
-                 reqCancelled, fnres, reason, ticks, recvPong, deadline>>
+  /\ UNCHANGED <<w, c, viol, inbox, nsent, cgone, sub, mu, closed, connClosed, ccancel, srvCancelled, runCancelled,
+                 reqCancelled, fnres, reason, stalled, ticks, recvPong, deadline>>
 
 \* ... if closer != nil { closer() }
 CancelOp ==
@@ -352,14 +399,14 @@ CancelOp ==
   /\ ccancel' = ccancel \cup {Head1("R").i} /\ Pop("R")
   /\ A("CancelOp", "", Head1("R").i, 0)
   /\ UNCHANGED <<w, c, viol, inbox, nsent, cgone, sub, mu, active, closed, connClosed, srvCancelled, runCancelled,
-                 reqCancelled, fnres, reason, ticks, recvPong, deadline>>
+                 reqCancelled, fnres, reason, stalled, ticks, recvPong, deadline>>
 
 PongCS ==
   /\ At("R", "pongcs") /\ mu = "free"
   /\ recvPong' = TRUE /\ deadline' = FALSE /\ Pop("R")
   /\ A("PongCS", "", "", 0)
   /\ UNCHANGED <<w, c, viol, inbox, nsent, cgone, sub, mu, active, closed, connClosed, ccancel, srvCancelled, runCancelled,
-                 reqCancelled, fnres, reason, ticks>>
+                 reqCancelled, fnres, reason, stalled, ticks>>
 
 \* run() returns: deferred cancel of the run context; Do returns; net/http
 \* cancels the request context, the ancestor of every operation context
@@ -368,7 +415,7 @@ Ret ==
   /\ runCancelled' = TRUE /\ reqCancelled' = TRUE /\ Goto("R", <<>>)
   /\ A("Ret", "", "", 0)
   /\ UNCHANGED <<w, c, viol, inbox, nsent, cgone, sub, mu, active, closed, connClosed, ccancel, srvCancelled,
-                 fnres, reason, ticks, recvPong, deadline>>
+                 fnres, reason, stalled, ticks, recvPong, deadline>>
 
 \* --------------------------------------------------------------- workers --
 TermProg(i, xk) ==
@@ -384,7 +431,7 @@ SrcStart(i) ==
   /\ Pop(i)
   /\ A("SrcStart", "", i, 0)
   /\ UNCHANGED <<c, inbox, nsent, cgone, sub, mu, active, closed, connClosed, ccancel, srvCancelled, runCancelled,
-                 reqCancelled, fnres, reason, ticks, recvPong, deadline>>
+                 reqCancelled, fnres, reason, stalled, ticks, recvPong, deadline>>
 
 \* the Source returns its next value (user's decision)
 SrcEmit(i) ==
@@ -393,7 +440,7 @@ SrcEmit(i) ==
   /\ Goto(i, <<WrI("next", i, w.I[i].em + 1), O("call")>>)
   /\ A("SrcEmit", "", i, w.I[i].em + 1)
   /\ UNCHANGED <<c, inbox, nsent, cgone, sub, mu, active, closed, connClosed, ccancel, srvCancelled, runCancelled,
-                 reqCancelled, fnres, reason, ticks, recvPong, deadline>>
+                 reqCancelled, fnres, reason, stalled, ticks, recvPong, deadline>>
 
 \* the Source ends by itself: nil / subscription error + nil / panic
 SrcEnd(i, xk) ==
@@ -402,28 +449,37 @@ SrcEnd(i, xk) ==
   /\ Goto(i, TermProg(i, xk))
   /\ A("SrcEnd", xk, i, 0)
   /\ UNCHANGED <<c, inbox, nsent, cgone, sub, mu, active, closed, connClosed, ccancel, srvCancelled, runCancelled,
-                 reqCancelled, fnres, reason, ticks, recvPong, deadline>>
+                 reqCancelled, fnres, reason, stalled, ticks, recvPong, deadline>>
 
-\* the Source observes ctx.Done and returns nil (assumed prompt: weakly fair)
+\* the Source observes ctx.Done (assumed prompt: weakly fair) ...
 SrcSeesCancel(i) ==
   /\ At(i, "call") /\ Cancelled(i)
-  /\ w' = SrcExit_F(SrcCancelSeen_F(w, i), i, "cancel")
+  /\ w' = SrcCancelSeen_F(w, i)
   /\ Chk(SrcCancelSeen_G(w, c, i), "SrcCancelSeen")
-  /\ Goto(i, TermProg(i, "cancel"))
+  /\ Goto(i, <<O("linger")>>)
   /\ A("SrcSeesCancel", "", i, 0)
   /\ UNCHANGED <<c, inbox, nsent, cgone, sub, mu, active, closed, connClosed, ccancel, srvCancelled, runCancelled,
-                 reqCancelled, fnres, reason, ticks, recvPong, deadline>>
+                 reqCancelled, fnres, reason, stalled, ticks, recvPong, deadline>>
+
+\* ... and returns nil - at once, or (Linger) a little later, when the environment lets it
+SrcLingerEnds(i) ==
+  /\ At(i, "linger") /\ (Linger => Env)
+  /\ w' = SrcExit_F(w, i, "cancel") /\ Chk(SrcExit_G(w, i, "cancel"), "SrcExit")
+  /\ Goto(i, TermProg(i, "cancel"))
+  /\ A("SrcRelease", "", i, 0)
+  /\ UNCHANGED <<c, inbox, nsent, cgone, sub, mu, active, closed, connClosed, ccancel, srvCancelled, runCancelled,
+                 reqCancelled, fnres, reason, stalled, ticks, recvPong, deadline>>
 
 \* deferred: c.mu.Lock(); delete(c.active, id); c.mu.Unlock()
 Del(i) ==
   /\ At(i, "del") /\ mu = "free"
   /\ LET id == IdOfInst[i]
-         rm == id \in DOMAIN active /\ (FixDel => active[id] = i)
+         rm == id \in DOMAIN active         \* unconditional, as in the code (safe only while ids are unique in `active`)
      IN active' = (IF rm THEN [x \in DOMAIN active \ {id} |-> active[x]] ELSE active)
   /\ Pop(i)
   /\ A("Del", "", i, 0)
   /\ UNCHANGED <<w, c, viol, inbox, nsent, cgone, sub, mu, closed, connClosed, ccancel, srvCancelled, runCancelled,
-                 reqCancelled, fnres, reason, ticks, recvPong, deadline>>
+                 reqCancelled, fnres, reason, stalled, ticks, recvPong, deadline>>
 
 \* ---------------------------------------------- closeOnCancel and tickers --
 Watch ==
@@ -431,7 +487,7 @@ Watch ==
   /\ Goto("C", IF reason THEN <<Wr("cerr"), Cl(1000)>> ELSE <<Cl(1000)>>)
   /\ A("Watch", "", "", 0)
   /\ UNCHANGED <<w, c, viol, inbox, nsent, cgone, sub, mu, active, closed, connClosed, ccancel, srvCancelled, runCancelled,
-                 reqCancelled, fnres, reason, ticks, recvPong, deadline>>
+                 reqCancelled, fnres, reason, stalled, ticks, recvPong, deadline>>
 
 TickFrame(t) == IF t = "KA" THEN "ka" ELSE IF t = "PO" THEN "pong" ELSE "ping"
 
@@ -441,14 +497,14 @@ Tick(t) ==
   /\ Goto(t, <<Wr(TickFrame(t))>> \o (IF t = "PP" THEN <<O("pingcs")>> ELSE <<>>) \o <<O("tick")>>)
   /\ A("Tick", t, "", 0)
   /\ UNCHANGED <<w, c, viol, inbox, nsent, cgone, sub, mu, active, closed, connClosed, ccancel, srvCancelled, runCancelled,
-                 reqCancelled, fnres, reason, recvPong, deadline>>
+                 reqCancelled, fnres, reason, stalled, recvPong, deadline>>
 
 TickStop(t) ==
   /\ At(t, "tick") /\ CtxDone
   /\ Goto(t, <<>>)
   /\ A("TickStop", t, "", 0)
   /\ UNCHANGED <<w, c, viol, inbox, nsent, cgone, sub, mu, active, closed, connClosed, ccancel, srvCancelled, runCancelled,
-                 reqCancelled, fnres, reason, ticks, recvPong, deadline>>
+                 reqCancelled, fnres, reason, stalled, ticks, recvPong, deadline>>
 
 PingCS ==
   /\ At("PP", "pingcs") /\ mu = "free"
@@ -456,7 +512,7 @@ PingCS ==
   /\ recvPong' = FALSE /\ Pop("PP")
   /\ A("PingCS", "", "", 0)
   /\ UNCHANGED <<w, c, viol, inbox, nsent, cgone, sub, mu, active, closed, connClosed, ccancel, srvCancelled, runCancelled,
-                 reqCancelled, fnres, reason, ticks>>
+                 reqCancelled, fnres, reason, stalled, ticks>>
 
 \* ------------------------------------------------------------ environment --
 \* instance names of one id are used in the order of the constant InstOrder
@@ -477,7 +533,7 @@ ClientSends(m, id, i, kind) ==
        ELSE cgone' = cgone /\ inbox' = Append(inbox, Msg(m, id, i, kind))
   /\ A("CSend", m, IF m = "start" THEN i ELSE id, IF kind = "bad" THEN 1 ELSE 0)
   /\ UNCHANGED <<c, prog, sub, mu, active, closed, connClosed, ccancel, srvCancelled, runCancelled,
-                 reqCancelled, fnres, reason, ticks, recvPong, deadline>>
+                 reqCancelled, fnres, reason, stalled, ticks, recvPong, deadline>>
 
 Client ==
   \/ \E m \in Alphabet \ {"start", "stop"} : ClientSends(m, "", "", "")
@@ -493,20 +549,36 @@ ServerCancel ==
   /\ w' = SrvCancel_F(w)
   /\ A("SrvCancel", "", "", 0)
   /\ UNCHANGED <<c, viol, inbox, nsent, cgone, prog, sub, mu, active, closed, connClosed, ccancel, runCancelled,
-                 reqCancelled, fnres, reason, ticks, recvPong, deadline>>
+                 reqCancelled, fnres, reason, stalled, ticks, recvPong, deadline>>
 
 System ==
   \E p \in Procs :
      /\ MayRun(p)
-     /\ \/ Lock(p) \/ Send(p) \/ CloseTry(p) \/ CloseCS(p) \/ CloseConn(p) \/ CloseFn(p)
+     /\ \/ Lock(p) \/ Send(p) \/ CloseTry(p) \/ CloseLock(p) \/ CloseFrame(p) \/ CloseCancel(p) \/ CloseCS(p)
+        \/ CloseConn(p) \/ CloseFn(p)
         \/ p = "R" /\ (RdInit \/ InitFnCall \/ Setup \/ Read \/ Reg \/ Look \/ CancelOp \/ PongCS \/ Ret)
-        \/ p \in AllInsts /\ (SrcStart(p) \/ SrcSeesCancel(p) \/ Del(p))
+        \/ p \in AllInsts /\ (SrcStart(p) \/ SrcSeesCancel(p) \/ (~Linger /\ SrcLingerEnds(p)) \/ Del(p))
         \/ p = "C" /\ Watch
         \/ p = "PP" /\ PingCS
         \/ p \in Tickers /\ TickStop(p)
 
+\* the peer stops reading for a while (once): socket writes do not return until the stall ends
+StallOn ==
+  /\ Stalls /\ stalled = "no" /\ Env /\ ~closed
+  /\ stalled' = "on"
+  /\ A("StallOn", "", "", 0)
+  /\ UNCHANGED <<w, c, viol, inbox, nsent, cgone, prog, sub, mu, active, closed, connClosed, ccancel, srvCancelled, runCancelled,
+                 reqCancelled, fnres, reason, ticks, recvPong, deadline>>
+StallOff ==
+  /\ stalled = "on" /\ Env
+  /\ stalled' = "done"
+  /\ A("StallOff", "", "", 0)
+  /\ UNCHANGED <<w, c, viol, inbox, nsent, cgone, prog, sub, mu, active, closed, connClosed, ccancel, srvCancelled, runCancelled,
+                 reqCancelled, fnres, reason, ticks, recvPong, deadline>>
+
 Environment ==
-  \/ Client \/ ServerCancel \/ InitTimeout \/ Deadline
+  \/ Client \/ ServerCancel \/ InitTimeout \/ Deadline \/ StallOn \/ StallOff
+  \/ \E i \in AllInsts : Linger /\ SrcLingerEnds(i)
   \/ \E t \in Tickers : Tick(t)
   \/ \E i \in AllInsts : SrcEmit(i) \/ \E xk \in SrcKinds : SrcEnd(i, xk)
 
@@ -516,7 +588,8 @@ Proj ==
                               er |-> w.I[i].er, cp |-> w.I[i].cp]],
    acks |-> w.acks, closeCalls |-> w.closeCalls, cend |-> (w.cend \/ cgone), initFn |-> w.initFn]
 
-EnvNames == {"CSend", "SrvCancel", "InitTimeout", "Deadline", "Tick", "SrcEmit", "SrcEnd"}
+EnvNames == {"CSend", "SrvCancel", "InitTimeout", "Deadline", "Tick", "SrcEmit", "SrcEnd", "StallOn", "StallOff"}
+           \cup (IF Linger THEN {"SrcRelease"} ELSE {})
 Next ==
   /\ System \/ Environment
   \* (b: the decision was taken in a non-quiescent state = second frame of one client write)
@@ -526,19 +599,22 @@ Next ==
 \* a Source that has been cancelled.  The environment is not.
 fvars == <<w, c, ivars, viol, act>>     \* (hist is written by Next only)
 Fairness ==
-  /\ \A p \in Procs : WF_fvars(Lock(p)) /\ WF_fvars(Send(p)) /\ WF_fvars(CloseTry(p)) /\ WF_fvars(CloseCS(p))
+  /\ \A p \in Procs : WF_fvars(Lock(p)) /\ WF_fvars(Send(p)) /\ WF_fvars(CloseTry(p)) /\ WF_fvars(CloseLock(p))
+                      /\ WF_fvars(CloseFrame(p)) /\ WF_fvars(CloseCancel(p)) /\ WF_fvars(CloseCS(p))
                       /\ WF_fvars(CloseConn(p)) /\ WF_fvars(CloseFn(p))
+  /\ WF_fvars(StallOff)                      \* a stall ends
   /\ WF_fvars(RdInit) /\ WF_fvars(InitFnCall) /\ WF_fvars(Setup) /\ WF_fvars(Read) /\ WF_fvars(Reg) /\ WF_fvars(Look)
   /\ WF_fvars(CancelOp) /\ WF_fvars(PongCS) /\ WF_fvars(Ret) /\ WF_fvars(Watch) /\ WF_fvars(PingCS)
   /\ \A t \in Tickers : WF_fvars(TickStop(t))
-  /\ \A i \in AllInsts : WF_fvars(SrcStart(i)) /\ WF_fvars(SrcSeesCancel(i)) /\ WF_fvars(Del(i))
+  /\ \A i \in AllInsts : WF_fvars(SrcStart(i)) /\ WF_fvars(SrcSeesCancel(i)) /\ WF_fvars(SrcLingerEnds(i)) /\ WF_fvars(Del(i))
 
 Spec == Init /\ [][Next]_vars /\ Fairness
 
 \* ------------------------------------------------------------- properties --
 TypeOK ==
   /\ mu \in {"free"} \cup Procs
-  /\ \A p \in Procs : sub[p] \in {"-", "in", "cs", "cc", "cf"}
+  /\ \A p \in Procs : sub[p] \in {"-", "in", "ck", "cs", "cs2", "cs3", "cc", "cf"}
+  /\ stalled \in {"no", "on", "done"}
   /\ nsent \in 0..MaxMsgs /\ ticks \in 0..MaxTicks
   /\ DOMAIN active \subseteq Ids /\ Range(active) \subseteq AllInsts
 
@@ -547,8 +623,8 @@ Refines == viol = {}
 
 \* frames are never written concurrently
 WriteExclusion ==
-  /\ Cardinality({p \in Procs : sub[p] \in {"in", "cs"}}) <= 1
-  /\ \A p \in Procs : sub[p] \in {"in", "cs"} => mu = p
+  /\ Cardinality({p \in Procs : sub[p] \in {"in", "cs", "cs2", "cs3"}}) <= 1
+  /\ \A p \in Procs : sub[p] \in {"in", "cs", "cs2", "cs3"} => mu = p
 
 AllDone == \A p \in Procs : prog[p] = <<>>
 \* the close callback fires at most once, and exactly once when everything has ended
